@@ -7,6 +7,7 @@
 -/
 import UtapModel.Model.C09Lex
 import UtapModel.Model.C09Ops
+import UtapModel.Model.C09Render
 import UtapModel.Gen.C09Tables
 open UtapModel.C09
 
@@ -53,6 +54,68 @@ def genTables : Tables :=
 def parseTypes (s : String) : List (List Ch) :=
   if s == "-" then [] else (s.splitOn ",").map (fun x => x.toList.map Char.toNat)
 
+/-- the text as a leading separator and items (lexeme + following trivia), following the lexer's own segmentation;
+    `none` when the text contains something the theorem does not speak about (CRLF newlines, EXPECT comments,
+    an unterminated comment) -/
+partial def decomposeGo (cfg : Cfg) (s : List Ch) (sep0 : List Triv) (items : List Item) : Option (List Triv × List Item) :=
+  let addTriv (t : Triv) : List Triv × List Item :=
+    match items with
+    | [] => (sep0 ++ [t], [])
+    | it :: rest => (sep0, { it with sep := it.sep ++ [t] } :: rest)     -- items are kept in reverse order
+  match s with
+  | [] => some (sep0, items.reverse)
+  | _ :: _ =>
+    match best cfg.rules s with
+    | none => none
+    | some (r, len) =>
+      let w := s.take len
+      let rest := s.drop len
+      match r with
+      | .blanks => match w with
+        | c :: b => let (a, b') := addTriv (.blanks c b); decomposeGo cfg rest a b'
+        | [] => none
+      | .newlines => let (a, b') := addTriv (.newlines w.tail); decomposeGo cfg rest a b'
+      | .lineComment => let (a, b') := addTriv (.line (w.drop 2)); decomposeGo cfg rest a b'
+      | .cont => let (a, b') := addTriv (.cont ((w.drop 1).dropLast)); decomposeGo cfg rest a b'
+      | .crlf => none
+      | .commentOpen =>
+        -- the body up to the first "*/" as the <comment> state sees it
+        let rec scan (body : List Ch) (t : List Ch) (fuel : Nat) : Option (List Ch × List Ch) :=
+          match fuel with
+          | 0 => none
+          | fuel + 1 =>
+            match commentStep t with
+            | .eof => none
+            | .expect _ => none
+            | .close => some (body.reverse, t.drop 2)
+            | .skip => match t with
+              | c :: t' => scan (c :: body) t' fuel
+              | [] => none
+        match scan [] rest (rest.length + 1) with
+        | some (body, rest') => let (a, b') := addTriv (.block body); decomposeGo cfg rest' a b'
+        | none => none
+      | _ => decomposeGo cfg rest sep0 ({ w := w, r := r, sep := [] } :: items)
+
+def renderableText (cfg : Cfg) (s : List Ch) : String :=
+  match decomposeGo cfg s [] [] with
+  | none => "no:shape"
+  | some (sep0, items) =>
+    if sepText sep0 ++ renderItems items != s then "no:render"
+    else if !(sepOK sep0 (renderItems items)) then "no:sep0"
+    else if Renderable cfg items then "yes:" ++ toString items.length
+    else
+      -- name the first lexeme whose hypothesis fails
+      let rec first (its : List Item) : String :=
+        match its with
+        | [] => "?"
+        | it :: rest =>
+          let after := sepText it.sep ++ renderItems rest
+          if !(best cfg.rules it.w == some (it.r, it.w.length)) then "alone:" ++ hexOf it.w
+          else if !(Closed cfg.rules it.w after) then "closed:" ++ hexOf it.w ++ ":" ++ hexOf (after.take 1)
+          else if !(sepOK it.sep (renderItems rest)) then "sep:" ++ hexOf it.w
+          else first rest
+      "no:" ++ first items
+
 def stepLine (line : String) : String :=
   let ws := (line.trimAscii.toString.splitOn " ").filter (· ≠ "")
   match ws with
@@ -64,6 +127,7 @@ def stepLine (line : String) : String :=
       " ".intercalate (ls.map fun (a, b, r, ts) => s!"{a}:{b}:{r}:" ++ ",".intercalate (ts.map showTok))
     else if op == "toks" then
       " ".intercalate ((lex cfg s).map showTok)
+    else if op == "hyp" then renderableText cfg s
     else if op == "trace" then
       match opsTraceT genTables (lex cfg s) with
       | some tr => " ".intercalate tr
